@@ -62,11 +62,11 @@ theorem find?_modify : ∀ (t : SymTab) (k k' : SymKey) (f : Symbol → Symbol),
         rw [if_neg this]
       · rw [if_neg h1, if_neg h1]
 
-theorem TRel.keyOf {D : SymKey → Prop} {t1 t2 : SymTab} (h : TRel D t1 t2) (scope n : String) :
+theorem keyOf_congr {t1 t2 : SymTab} (hdom : ∀ k, (t1.find? k).isSome = (t2.find? k).isSome) (scope n : String) :
     t1.keyOf scope n = t2.keyOf scope n := by
   unfold SymTab.keyOf
-  have h1 := h.dom (scope, n)
-  have h2 := h.dom ("", n)
+  have h1 := hdom (scope, n)
+  have h2 := hdom ("", n)
   cases ha : t1.find? (scope, n) with
   | some a =>
     cases hb : t2.find? (scope, n) with
@@ -86,6 +86,9 @@ theorem TRel.keyOf {D : SymKey → Prop} {t1 t2 : SymTab} (h : TRel D t1 t2) (sc
         cases hd : t2.find? ("", n) with
         | some b => rw [hc, hd] at h2; simp at h2
         | none => rfl
+
+theorem TRel.keyOf {D : SymKey → Prop} {t1 t2 : SymTab} (h : TRel D t1 t2) (scope n : String) :
+    t1.keyOf scope n = t2.keyOf scope n := keyOf_congr h.dom scope n
 
 /-- What `lookup` returns in related tables. -/
 theorem TRel.lookup {D : SymKey → Prop} {t1 t2 : SymTab} (h : TRel D t1 t2) (scope n : String) :
@@ -438,6 +441,12 @@ def ERel {α : Type} (R : α → α → Prop) : Except CDiag α → Except CDiag
 
 def NoD : SymKey → Prop := fun _ => False
 
+theorem ERel.imp {α : Type} {R R' : α → α → Prop} {x y : Except CDiag α} (h : ERel R x y) (hi : ∀ a b, R a b → R' a b) :
+    ERel R' x y := by
+  cases x <;> cases y <;> simp only [ERel] at h ⊢
+  · exact h
+  · exact hi _ _ h
+
 theorem TblInv.cons {names : String → List String → Prop} {t : SymTab} (h : TblInv names t) (k : SymKey) (s : Symbol)
     (hs : s.scope = k.1) (hl : k.1 ≠ "" → ∃ ns, names k.1 ns ∧ k.2 ∈ ns) : TblInv names ((k, s) :: t) := by
   constructor
@@ -701,5 +710,144 @@ theorem constProp_rel (P : X.Program) : constProp t1 P = constProp t2 P := by
   simp only [cpDecls_rel hT, cpProcs_rel hT]
 
 end
+
+/-! ### `CodeGen` -/
+
+theorem find?_isSome_modify (t : SymTab) (k k' : SymKey) (f : Symbol → Symbol) :
+    ((t.modify k f).find? k').isSome = (t.find? k').isSome := by
+  rw [find?_modify]
+  by_cases h : k' = k
+  · rw [if_pos h]; simp
+  · rw [if_neg h]
+
+theorem keyOf_modify (t : SymTab) (k : SymKey) (f : Symbol → Symbol) (scope n : String) :
+    (t.modify k f).keyOf scope n = t.keyOf scope n :=
+  keyOf_congr (fun k' => find?_isSome_modify t k k' f) scope n
+
+theorem keyOf_modifySym (t : SymTab) (sc m : String) (f : Symbol → Symbol) (scope n : String) :
+    (modifySym t sc m f).keyOf scope n = t.keyOf scope n := by
+  unfold modifySym
+  cases t.keyOf sc m with
+  | none => rfl
+  | some k => exact keyOf_modify t k f scope n
+
+theorem TblInv.modify {names : String → List String → Prop} {t : SymTab} (h : TblInv names t) (k : SymKey) (f : Symbol → Symbol)
+    (hf : ∀ a, (f a).scope = a.scope) : TblInv names (t.modify k f) := by
+  constructor
+  · intro k' a ha
+    rw [find?_modify] at ha
+    by_cases hk : k' = k
+    · rw [if_pos hk] at ha
+      cases h0 : t.find? k' with
+      | none => rw [h0] at ha; simp at ha
+      | some a0 =>
+        rw [h0] at ha
+        simp only [Option.map_some, Option.some.injEq] at ha
+        rw [← ha, hf]
+        exact h.scope k' a0 h0
+    · rw [if_neg hk] at ha; exact h.scope k' a ha
+  · intro k' hk' hne
+    rw [find?_isSome_modify] at hk'
+    exact h.local_ k' hk' hne
+
+theorem TblInv.modifySym {names : String → List String → Prop} {t : SymTab} (h : TblInv names t) (sc m : String)
+    (f : Symbol → Symbol) (hf : ∀ a, (f a).scope = a.scope) : TblInv names (modifySym t sc m f) := by
+  unfold Xcmp.modifySym
+  cases t.keyOf sc m with
+  | none => exact h
+  | some k => exact h.modify k f hf
+
+/-- The keys whose offset an update of the names `ms` (looked up from `sc`) sets. -/
+def Dof (t : SymTab) (sc : String) (ms : List String) : SymKey → Prop := fun k => ∃ m ∈ ms, t.keyOf sc m = some k
+
+theorem formalLocations_rel (sc : String) (fr : Nat) : ∀ (fs : List X.Formal) (fbo : Int) (D : SymKey → Prop) (t1 t2 : SymTab),
+    TRel D t1 t2 →
+    TRel (fun k => D k ∨ Dof t1 sc (fs.map X.Formal.name) k) (formalLocations sc fr fs fbo t1) (formalLocations sc fr fs fbo t2) ∧
+    (∀ scope n, (formalLocations sc fr fs fbo t1).keyOf scope n = t1.keyOf scope n) := by
+  intro fs
+  induction fs with
+  | nil =>
+    intro fbo D t1 t2 h
+    exact ⟨h.mono (fun k hk => by rcases hk with hk | ⟨m, hm, _⟩; exact hk; simp at hm), fun _ _ => rfl⟩
+  | cons f fs ih =>
+    intro fbo D t1 t2 h
+    unfold formalLocations
+    have h1 : TRel (fun k' => D k' ∨ t1.keyOf sc f.name = some k')
+        (modifySym t1 sc f.name fun s => { s with stackOffset := fbo, frame := fr })
+        (modifySym t2 sc f.name fun s => { s with stackOffset := fbo, frame := fr }) :=
+      h.modifySym sc f.name _ (fun a b hs => ⟨hs.1, hs.2.1, hs.2.2.1, hs.2.2.2.1, hs.2.2.2.2.1, rfl, hs.2.2.2.2.2.2⟩)
+        (fun k' hd hne => by rcases hd with hd | hd; exact hd; exact absurd hd hne)
+        (fun _ _ _ _ _ _ _ => rfl)
+    obtain ⟨h2, hk2⟩ := ih (fbo + 1) _ _ _ h1
+    refine ⟨h2.mono ?_, fun scope n => by rw [hk2, keyOf_modifySym]⟩
+    intro k hk
+    rcases hk with hk | ⟨m, hm, hkm⟩
+    · exact Or.inl (Or.inl hk)
+    · simp only [List.map_cons, List.mem_cons] at hm
+      rcases hm with rfl | hm
+      · exact Or.inl (Or.inr hkm)
+      · exact Or.inr ⟨m, hm, by rw [keyOf_modifySym]; exact hkm⟩
+
+theorem formalLocations_inv {names : String → List String → Prop} (sc : String) (fr : Nat) :
+    ∀ (fs : List X.Formal) (fbo : Int) (t : SymTab), TblInv names t → TblInv names (formalLocations sc fr fs fbo t) := by
+  intro fs
+  induction fs with
+  | nil => intro fbo t h; exact h
+  | cons f fs ih =>
+    intro fbo t h
+    unfold formalLocations
+    exact ih _ _ (h.modifySym sc f.name _ (fun _ => rfl))
+
+theorem localDeclLocations_rel (sc : String) (fr : Nat) : ∀ (ds : List ADecl) (c : Nat) (D : SymKey → Prop) (t1 t2 : SymTab),
+    TRel D t1 t2 →
+    ERel (fun r1 r2 => r1.2 = r2.2 ∧ TRel (fun k => D k ∨ Dof t1 sc (ds.map ADecl.name) k) r1.1 r2.1 ∧
+          (∀ scope n, r1.1.keyOf scope n = t1.keyOf scope n))
+      (localDeclLocations sc fr ds c t1) (localDeclLocations sc fr ds c t2) := by
+  intro ds
+  induction ds with
+  | nil =>
+    intro c D t1 t2 h
+    exact ⟨rfl, h.mono (fun k hk => by rcases hk with hk | ⟨m, hm, _⟩; exact hk; simp at hm), fun _ _ => rfl⟩
+  | cons d ds ih =>
+    intro c D t1 t2 h
+    unfold localDeclLocations
+    cases d with
+    | array n e => simp only [ERel]
+    | val n e =>
+      simp only
+      have h1 : TRel (fun k' => D k' ∨ t1.keyOf sc n = some k')
+          (modifySym t1 sc n fun s => { s with stackOffset := -(c : Int), frame := fr })
+          (modifySym t2 sc n fun s => { s with stackOffset := -(c : Int), frame := fr }) :=
+        h.modifySym sc n _ (fun a b hs => ⟨hs.1, hs.2.1, hs.2.2.1, hs.2.2.2.1, hs.2.2.2.2.1, rfl, hs.2.2.2.2.2.2⟩)
+          (fun k' hd hne => by rcases hd with hd | hd; exact hd; exact absurd hd hne)
+          (fun _ _ _ _ _ _ _ => rfl)
+      refine (ih (c + 1) _ _ _ h1).imp ?_
+      intro r1 r2 ⟨e1, e2, e3⟩
+      refine ⟨e1, e2.mono ?_, fun scope m => by rw [e3, keyOf_modifySym]⟩
+      intro k hk
+      rcases hk with hk | ⟨m, hm, hkm⟩
+      · exact Or.inl (Or.inl hk)
+      · simp only [List.map_cons, List.mem_cons, ADecl.name] at hm
+        rcases hm with rfl | hm
+        · exact Or.inl (Or.inr hkm)
+        · exact Or.inr ⟨m, hm, by rw [keyOf_modifySym]; exact hkm⟩
+    | var n =>
+      simp only
+      have h1 : TRel (fun k' => D k' ∨ t1.keyOf sc n = some k')
+          (modifySym t1 sc n fun s => { s with stackOffset := -(c : Int), frame := fr })
+          (modifySym t2 sc n fun s => { s with stackOffset := -(c : Int), frame := fr }) :=
+        h.modifySym sc n _ (fun a b hs => ⟨hs.1, hs.2.1, hs.2.2.1, hs.2.2.2.1, hs.2.2.2.2.1, rfl, hs.2.2.2.2.2.2⟩)
+          (fun k' hd hne => by rcases hd with hd | hd; exact hd; exact absurd hd hne)
+          (fun _ _ _ _ _ _ _ => rfl)
+      refine (ih (c + 1) _ _ _ h1).imp ?_
+      intro r1 r2 ⟨e1, e2, e3⟩
+      refine ⟨e1, e2.mono ?_, fun scope m => by rw [e3, keyOf_modifySym]⟩
+      intro k hk
+      rcases hk with hk | ⟨m, hm, hkm⟩
+      · exact Or.inl (Or.inl hk)
+      · simp only [List.map_cons, List.mem_cons, ADecl.name] at hm
+        rcases hm with rfl | hm
+        · exact Or.inl (Or.inr hkm)
+        · exact Or.inr ⟨m, hm, by rw [keyOf_modifySym]; exact hkm⟩
 
 end Hex.Xcmp
